@@ -89,18 +89,23 @@ impl Ctx {
         for (k, keep) in [(0usize, (0..p.types.len() as u32).filter(|i| i % 3 == 0).collect::<Vec<u32>>()),
                           (1, vec![*self.ids.last().unwrap_or(&0)]),
                           (2, self.ids.iter().cloned().take(2).collect())] {
-            let _ = k;
+            let outside = k != 1;       // the filter as a total predicate: its answer for numbers that are no ids
             let mut q = p.clone();
             let old = proj::registry(Mode::Plain, &q);
             let ks = keep.clone();
             // retain's premise is a well-formed input; if the registry at hand is not (another property's
-            // matter) retain may panic: that is not this event's business, the event is dropped
+            // matter) retain may panic: the event records the panic and is judged only on well-formed inputs
+            let nn = q.types.len() as u32;
             let r = crate::guarded(move || {
-                let map = q.retain(|i| ks.contains(&i));
+                let map = q.retain(|i| if i < nn { ks.contains(&i) } else { outside });
                 (map, q)
             });
+            if let Err(pn) = &r {
+                // judged only when `old` is well-formed (the acceptor's caller filters on that)
+                self.put(&json!({"ev": "Retain", "old": old, "keep": keep, "outside": outside, "panic": pn}));
+            }
             if let Ok((map, q)) = r {
-                self.put(&json!({"ev": "Retain", "old": old, "keep": keep, "map": map.iter().map(|(a, b)| json!([a, b])).collect::<Vec<_>>(), "new": proj::registry(Mode::Plain, &q)}));
+                self.put(&json!({"ev": "Retain", "old": old, "keep": keep, "outside": outside, "map": map.iter().map(|(a, b)| json!([a, b])).collect::<Vec<_>>(), "new": proj::registry(Mode::Plain, &q)}));
             }
         }
         self.reg = Some(p);
